@@ -99,6 +99,7 @@ static void const_literal (Out *o, uint64_t cval, int size, int as_operand)
     }
     o->r->classes |= 1u << 7;
     if (k < 6) { oput (o, "0x%llx%c", (unsigned long long) t, (k & 1) ? 'L' : 'l'); o->r->classes |= 1u << 5; }
+    else if (k == 6 && (int64_t) t < 0 && t != 0x8000000000000000ULL) { oput (o, "-0x%llxL", (unsigned long long) (-(int64_t) t)); o->r->classes |= (1u << 5) | (1u << 6); }
     else if (k < 8 && (int64_t) t < 0) { oput (o, "%lldL", (long long) (int64_t) t); o->r->classes |= 1u << 6; }
     else if ((int64_t) t >= 0) oput (o, "%lluL", (unsigned long long) t);
     else oput (o, "0x%llXL", (unsigned long long) t);
@@ -115,13 +116,23 @@ static void const_literal (Out *o, uint64_t cval, int size, int as_operand)
     }
   }
   (void) as_operand;
-  if (k < 5) { oput (o, (k & 1) ? "0x%llx" : "0x%llX", (unsigned long long) t); o->r->classes |= 1u << 5; }
-  else if (k < 8) {
-    /* the signed reading of the same bits */
-    int64_t s = size == 1 ? (int8_t) t : size == 2 ? (int16_t) t : (int32_t) t;
-    oput (o, "%lld", (long long) s);
-    if (s < 0) o->r->classes |= 1u << 6;
-  } else oput (o, "%llu", (unsigned long long) t);
+  {
+    /* the signed reading of the same bits, for the spellings with a sign */
+    int64_t sv = size == 1 ? (int8_t) t : size == 2 ? (int16_t) t : (int32_t) t;
+    uint32_t style = vc_pick (o->c, 6);
+    if (k < 4) { oput (o, (k & 1) ? "0x%llx" : "0x%llX", (unsigned long long) t); o->r->classes |= 1u << 5; }
+    else if (k == 4) {                  /* signed hexadecimal: -0x10, +0x10 */
+      if (sv < 0) oput (o, "-0x%llx", (unsigned long long) (-sv)); else oput (o, "+0x%llx", (unsigned long long) sv);
+      o->r->classes |= (1u << 5) | (1u << 6);
+    } else if (k < 8) {
+      if (style == 0 && sv >= 0) oput (o, "+%lld", (long long) sv);                                   /* explicit plus sign */
+      else if (style == 1 && sv > -512 && sv < 512) {                                                 /* octal, with or without sign */
+        if (sv < 0) oput (o, "-0%llo", (unsigned long long) (-sv)); else oput (o, "0%llo", (unsigned long long) sv);
+        o->r->classes |= 1u << 15;
+      } else oput (o, "%lld", (long long) sv);
+      if (sv < 0) o->r->classes |= 1u << 6;
+    } else oput (o, "%llu", (unsigned long long) t);
+  }
 }
 
 static const char *type_names[] = { "orc_uint8", "int16_t", "float", "gint32", "double", "orc_int64", "guint8" };
